@@ -607,6 +607,8 @@ impl expr::Expr
 								{
 									match (lhs.size, rhs.size)
 									{
+										(Some(lhs_width), Some(rhs_width)) if (lhs_width as u64).saturating_add(rhs_width as u64) >= util::BIGINT_MAX_BITS =>
+											Err(report.error_span("value is out of supported range", span)),
 										(Some(lhs_width), Some(rhs_width)) => Ok(expr::Value::make_integer(lhs.concat((lhs_width, 0), &rhs, (rhs_width, 0)))),
 										(None, _) => Err(report.error_span("argument to concatenation with indefinite size", lhs_expr.span())),
 										(_, None) => Err(report.error_span("argument to concatenation with indefinite size", rhs_expr.span()))
